@@ -38,6 +38,8 @@ TEMPLATES = [
     "m.set_speed({P})", "m.ramp({P}, {P})", "x = len({P})", "x = abs({P})", "x = min({P}, 1)", "x = int({P})", "x = str({P})",
     "def g(a):\n    q = [a, {P}]\n    return 1\ny = g([1, 2])", "def g(a):\n    return a\ny = g([{P}, 2])", "def g(a, b):\n    return a\ny = g({P}, [1])",
     "def g(a):\n    a.append({P})\n    return a\ny = g([1])", "def g(a):\n    return g({P})\ny = g(1)", "def g(a):\n    return a + 1\ny = g({P})\nz = g([1, 2])",
+    "ghost.on()\nx = {P}", "ghost.set_brightness({P})", "def mk():\n    inner = Led(3)\n    return 1\ndef use():\n    inner.on()\n    return {P}\nq = mk()",
+    "from Reduino_pins import {P}", "from Reduinoconfig import PIN\nx = {P}", "from Reduino.Extras import thing\nx = {P}", "import Reduino_board\nx = {P}",
     "x = 1 if {P} else 2", "try:\n    x = {P}\nexcept {P}:\n    x = 2", "items.append({P})", "x = -{P}", "x = not {P}", "x = 1 < {P} < 3",
 ]
 
